@@ -14,7 +14,7 @@ Ltac dst s :=
 Definition live (p : spc) : bool :=
   match p with
   | SImplSub | SImplSubChk | SSubFailClose | SInstall | SInstall2 | SRecv _ | SItem _
-  | SDeliver _ _ _ | SSyncEnd _ | SChk _ | SRunClose | SSleep | SReset => true
+  | SDeliver _ _ _ | SSyncEnd _ | SChk _ | SRunClose | SSleep | SReset | SInstClosed => true
   | _ => false
   end.
 
@@ -41,7 +41,7 @@ Proof.
   try destruct cpc0; cbn in *;
   try solve [intuition (try congruence; try discriminate)];
   try destruct cr0; try destruct cd0; try destruct rcl0; cbn in *;
-  rewrite ?andb_false_r in *; try discriminate;
+  rewrite ?andb_false_r, ?andb_true_r in *; try discriminate;
   intuition (try congruence; try discriminate).
   all: try (destruct spc0; cbn in *; intuition (try congruence; try discriminate)).
 Qed.
@@ -69,77 +69,88 @@ Proof.
   intros H. dst s; cbn in *; split_step H; crunch H; cbn in *; splitifs; auto.
 Qed.
 
+Definition c_inflight (c : cpc) : bool :=
+  match c with CIdle | CFin => false | _ => true end.
+
 Definition R_after_rc (s : st) (m : astate) : Prop :=
   inv3 s /\ inv5 s /\ a_bad m = false /\
+  (c_inflight (c_pc s) = true -> a_pend m = true) /\
   match a_closed m with None => c_done s = false | Some _ => c_done s = true end.
 
 Lemma R_after_rc_tau sc s m s1 :
   R_after_rc s m -> In (None, s1) (step true sc s) -> R_after_rc s1 m.
 Proof.
-  intros [I3 [I5 [B E]]] H. split; [eapply inv3_step; eauto|]. split; [eapply inv5_step; eauto|].
+  intros [I3 [I5 [B [P E]]]] H. split; [eapply inv3_step; eauto|]. split; [eapply inv5_step; eauto|].
   split; [exact B|]. clear I3 I5. destruct (a_closed m); dst s; cbn in *;
-  split_step H; crunch H; cbn in *; splitifs; try assumption; try reflexivity.
+  split_step H; crunch H; cbn in *; splitifs; (split; [try assumption; try (intros; discriminate); auto|]);
+  try assumption; try reflexivity.
 Qed.
 
 Lemma R_after_rc_vis sc s m l s1 :
   R_after_rc s m -> In (Some l, s1) (step true sc s) ->
   a_bad (after_step true m l) = false /\ R_after_rc s1 (after_step true m l).
 Proof.
-  intros [I3 [I5 [B E]]] H.
+  intros [I3 [I5 [B [P E]]]] H.
   assert (Q := rc_closed_quiet _ I5).
   assert (I3' := inv3_step _ _ _ _ I3 H). assert (I5' := inv5_step _ _ _ _ I3 I5 H).
   unfold R_after_rc. split; [|split; [exact I3'|split; [exact I5'|]]]; clear I3 I5 I3' I5';
-  destruct m as [mc mm ms mb]; dst s; cbn in *; subst mb;
-  split_step H; crunch H; cbn in *; destruct mc; cbn in *; splitifs;
-  try (split; reflexivity); try (split; [reflexivity|assumption]); try reflexivity; try assumption;
+  destruct m as [mc mm ms mar mpe mb]; dst s; cbn in *; subst mb;
+  split_step H; crunch H; cbn in *; try (rewrite (P eq_refl) in *); destruct mc; cbn in *; splitifs;
+  try reflexivity; try discriminate;
+  try (split; [reflexivity|]); try (split; [try assumption; try (intros; discriminate); auto|]);
+  try reflexivity; try assumption;
   try (specialize (Q E); discriminate).
 Qed.
 
 (** ** a bare Base/Cache client: at most one message after a successful Close
-       of the Subscribe call in progress (a new Subscribe re-opens the client) *)
+       made during the Subscribe call in progress (a new Subscribe re-opens the client) *)
 
-Definition post_install (p : spc) : bool :=
+(** the Subscribe call in progress has re-opened the client ([SClear] done) *)
+Definition cleared (p : spc) : bool :=
+  match p with SIdle | SClear | SFin => false | _ => true end.
+
+Definition streaming (p : spc) : bool :=
   match p with
-  | SRecv _ | SItem _ | SDeliver _ _ _ | SSyncEnd _ | SChk _ | SRunClose | SRet _ | SFin => true
+  | SRecv _ | SItem _ | SDeliver _ _ _ | SSyncEnd _ | SChk _ | SRunClose => true
   | _ => false
   end.
 
 Definition c_after_base (c : cpc) : bool :=
   match c with CBaseHold | CWait | CRet => true | _ => false end.
 
-Definition c_inflight (c : cpc) : bool :=
-  match c with CIdle | CFin => false | _ => true end.
+(** a Close that counts for the call in progress has set [closed] *)
+Definition close_counts (s : st) : Prop :=
+  c_done s = true \/ (c_ok s = true /\ c_wait s = true /\ c_after_base (c_pc s) = true).
 
 Definition inv6 (s : st) : Prop :=
   (match b_impl s with
    | NoImpl => True
-   | Impl j => j <= s_att s /\ (j = s_att s -> post_install (s_pc s) = true)
+   | Impl j => j <= s_att s /\ (j = s_att s -> streaming (s_pc s) = true \/
+                                 match s_pc s with SInstClosed | SRet _ | SFin => True | _ => False end)
    end) /\
-  (c_inflight (c_pc s) = true -> s_att s = 0 \/ s_pc s = SFin) /\
-  (c_after_base (c_pc s) = true -> c_ok s = true ->
-   b_closed s = true /\ post_install (s_pc s) = true) /\
-  (c_done s = true -> b_closed s = true /\ post_install (s_pc s) = true) /\
+  (c_inflight (c_pc s) = true -> c_wait s = true -> s_pc s <> SIdle /\ s_pc s <> SClear) /\
+  (close_counts s -> b_closed s = true /\ s_pc s <> SIdle /\ s_pc s <> SClear) /\
   (s_pc s = SIdle -> s_att s = 0 /\ b_impl s = NoImpl) /\
   (b_closed s = true -> b_impl s <> NoImpl) /\
+  (streaming (s_pc s) = true -> b_impl s = Impl (s_att s)) /\
   (c_done s = true -> c_after_base (c_pc s) = true -> c_ok s = true).
 
 Lemma inv6_step sc s l s1 : inv1 false s -> inv6 s -> In (l, s1) (step false sc s) -> inv6 s1.
 Proof.
-  intros I1 I H. pose proof (proj1 (proj2 (proj2 (proj2 (proj2 I1)))) eq_refl) as [HR _]. clear I1.
-  dst s; unfold inv6 in *; cbn in *;
+  intros I1 I H. pose proof (proj1 (proj2 (proj2 (proj2 (proj2 I1)))) eq_refl) as [HR [HL _]]. clear I1.
+  dst s; unfold inv6, close_counts in *; cbn in *;
   split_step H; crunch H; cbn in *; splitifs;
+  try (exfalso; apply HL; reflexivity);
   repeat match goal with
          | E : (_ =? _)%nat = true |- _ => apply Nat.eqb_eq in E; subst
+         | E : _ && _ = true |- _ => apply andb_prop in E; destruct E
          | E : _ || _ = true |- _ => apply orb_true_iff in E
-         | E : _ || _ = false |- _ => apply orb_false_iff in E; destruct E
          end;
   try solve [intuition (try congruence; try discriminate; try lia)];
   try destruct cpc0; try destruct bi0; cbn in *;
-  intuition (try congruence; try discriminate; try lia).
-  all: try (destruct spc0; cbn in *; try discriminate; auto; fail).
-  all: try (subst; repeat match goal with H : ?j <= 0 |- _ => assert (j = 0) by lia; subst; clear H end;
-            intuition (try congruence; try discriminate)).
-  all: try (left; apply Nat.eqb_eq; assumption).
+  try solve [intuition (try congruence; try discriminate; try lia)].
+  all: try (destruct cd0; destruct cok0; destruct cw0; cbn in *; intuition (try congruence; try discriminate; try lia); fail).
+  all: try (destruct spc0; cbn in *; try discriminate; intuition (try congruence; try discriminate; try lia); fail).
 Qed.
 
 Definition seen_ok (s : st) (m : astate) : Prop :=
@@ -147,28 +158,35 @@ Definition seen_ok (s : st) (m : astate) : Prop :=
   | None => True
   | Some c => match s_pc s with
               | SDeliver i _ _ | SSyncEnd i => c = (s_att s, i)
-              | SChk _ | SRet _ | SFin => True
+              | SChk _ | SRunClose | SInstClosed | SRet _ | SFin => True
               | _ => False
               end
   end.
 
 Definition R_after_base (s : st) (m : astate) : Prop :=
   inv1 false s /\ inv6 s /\ a_bad m = false /\
-  (match a_closed m with Some true => c_done s = true | _ => c_done s = false end) /\
+  (a_closed m = Some true -> c_done s = true) /\
+  (a_armed m = true -> cleared (s_pc s) = true) /\
+  (c_inflight (c_pc s) = true -> a_pend m = true -> c_wait s = true) /\
   (match s_pc s with
    | SItem i | SDeliver i _ _ | SSyncEnd i => a_curmsg m = (s_att s, i)
    | _ => True end) /\
-  (if c_done s then seen_ok s m else a_seen m = None).
+  (match a_closed m with Some true => seen_ok s m | _ => a_seen m = None end).
 
 Lemma R_after_base_tau sc s m s1 :
   R_after_base s m -> In (None, s1) (step false sc s) -> R_after_base s1 m.
 Proof.
-  intros [I1 [I6 [B [E [Cm Sn]]]]] H. split; [eapply inv1_step; eauto|]. split; [eapply inv6_step; eauto|]. split; [exact B|]. clear I1.
-  destruct m as [mc mm ms mb]; dst s; unfold inv6, seen_ok in *; cbn in *; subst mb;
-  split_step H; crunch H; cbn in *; splitifs;
+  intros [I1 [I6 [B [E [Ar [Pe [Cm Sn]]]]]]] H.
+  split; [eapply inv1_step; eauto|]. split; [eapply inv6_step; eauto|]. split; [exact B|].
+  pose proof (proj1 (proj2 (proj2 I6))) as K.
+  pose proof (proj1 (proj2 (proj2 (proj2 (proj2 I1)))) eq_refl) as [HR [HL _]]. clear I1.
+  destruct m as [mc mm ms mar mpe mb]; dst s; unfold inv6, close_counts, seen_ok in *; cbn in *; subst mb;
+  split_step H; crunch H; cbn in *; try discriminate HR; try (exfalso; apply HL; reflexivity); splitifs;
   try solve [intuition (try congruence; try discriminate)];
-  try destruct cd0; try destruct ms; cbn in *;
-  intuition (try congruence; try discriminate).
+  try (destruct mc as [[|]|]; cbn in *; try solve [intuition (try congruence; try discriminate)]).
+  all: try (destruct ms; cbn in *; try solve [intuition (try congruence; try discriminate)]).
+  all: try (exfalso; destruct K as [K _]; [left; apply E; reflexivity|congruence]).
+  all: intuition (try congruence; try discriminate).
 Qed.
 
 Lemma pair_eqb_refl c : pair_eqb c c = true.
@@ -178,20 +196,24 @@ Lemma R_after_base_vis sc s m l s1 :
   R_after_base s m -> In (Some l, s1) (step false sc s) ->
   a_bad (after_step false m l) = false /\ R_after_base s1 (after_step false m l).
 Proof.
-  intros [I1 [I6 [B [E [Cm Sn]]]]] H.
+  intros [I1 [I6 [B [E [Ar [Pe [Cm Sn]]]]]]] H.
   assert (I6' := inv6_step _ _ _ _ I1 I6 H). assert (I1' := inv1_step _ _ _ _ _ I1 H).
+  pose proof (proj1 (proj2 (proj2 I6))) as K.
+  pose proof (proj1 (proj2 (proj2 (proj2 (proj2 I1)))) eq_refl) as [HR [HL _]].
   unfold R_after_base. split; [|split; [exact I1'|split; [exact I6'|]]]; clear I6' I1' I1;
-  destruct m as [mc mm ms mb]; dst s; unfold inv6, seen_ok in *; cbn in *; subst mb;
-  split_step H; crunch H; cbn in *;
+  destruct m as [mc mm ms mar mpe mb]; dst s; unfold inv6, close_counts, seen_ok in *; cbn in *; subst mb;
+  split_step H; crunch H; cbn in *; try discriminate HR; try (exfalso; apply HL; reflexivity);
   try destruct mc as [[|]|]; cbn in *; splitifs; cbn in *;
   rewrite ?pair_eqb_refl;
   try solve [intuition (try congruence; try discriminate)];
-  try destruct cd0; try destruct cok0; try destruct ms; cbn in *; subst; rewrite ?pair_eqb_refl;
-  intuition (try congruence; try discriminate).
+  try destruct ms; try destruct mpe; cbn in *; subst; rewrite ?pair_eqb_refl;
+  try solve [intuition (try congruence; try discriminate)].
+  all: try (destruct cd0; destruct cok0; destruct cw0; cbn in *; intuition (try congruence; try discriminate); fail).
+  all: intuition (try congruence; try discriminate).
+  all: try (subst; cbn; rewrite ?orb_true_r; reflexivity).
 Qed.
 
-Definition astate0 : astate :=
-  {| a_closed := None; a_curmsg := (0, 0); a_seen := None; a_bad := false |}.
+Definition astate0 : astate := amk None (0, 0) None false false false.
 
 Theorem model_k_after rc sc tr s :
   run (step rc sc) init tr s -> k_after rc tr = None.
@@ -202,5 +224,6 @@ Proof.
     unfold R_after_rc, inv3, inv5, init; cbn. intuition (try congruence; try discriminate).
   - destruct (monitor_holds (step false sc) (after_step false) a_bad R_after_base
                 (R_after_base_tau sc) (R_after_base_vis sc) _ _ _ H astate0 0) as [G _]; [|exact G].
-    split; [apply inv1_init|]. unfold R_after_base, inv6, init; cbn. intuition (try congruence; try discriminate).
+    split; [apply inv1_init|]. unfold R_after_base, inv6, close_counts, init; cbn.
+    intuition (try congruence; try discriminate).
 Qed.
